@@ -163,7 +163,7 @@ func (c12) Gen(tier string, seed int64, emit0 func([]Ev)) {
 			at := 1 + r.Intn(len(calls))
 			calls = append(calls[:at:at], append([]Ev{{"f": "SetPartitionFlag", "b": false}}, calls[at:]...)...)
 		}
-		emit([]Ev{{"op": "build", "cablelabs": i%2 == 0, "calls": calls}})
+		emit([]Ev{{"op": "build", "cablelabs": i%2 == 0, "calls": calls, "twin": i%3 == 1}})
 	}
 	// time round trip over the whole representable range, nanosecond boundary values
 	nsVals := []int{0, 1, 2, 499999999, 500000000, 999999998, 999999999}
@@ -238,6 +238,10 @@ func (c12) Exec(h []Ev) []Ev {
 				} else {
 					x = &cc
 				}
+				// "twin": a second EBP is built side by side from a copy of the freshly created value (the Create functions
+				// return plain struct values); ids are added with append on both; what is set on the twin must not show in x
+				twin, _ := e["twin"].(bool)
+				twinCC, twinCL := cc, cl
 				var calls []interface{}
 				switch t := e["calls"].(type) {
 				case []Ev:
@@ -282,7 +286,16 @@ func (c12) Exec(h []Ev) []Ev {
 						for _, id := range GIs(c["ids"]) {
 							g = append(g, uint8(id))
 						}
-						if isCL {
+						if twin {
+							if isCL {
+								cl.Grouping = cl.Grouping[:0] // the list is replaced, as by an assignment, but built with append
+								for _, id := range g {
+									cl.Grouping = append(cl.Grouping, id)
+								}
+							} else {
+								cc.Grouping = append(cc.Grouping[:0], g[0])
+							}
+						} else if isCL {
 							cl.Grouping = g
 						} else {
 							cc.Grouping = g[:1]
@@ -297,6 +310,15 @@ func (c12) Exec(h []Ev) []Ev {
 					if !isCL && len(cc.Grouping) == 0 {
 						cc.Grouping = []uint8{5}
 					}
+				}
+				if twin {
+					for k := 0; k < 3; k++ {
+						twinCL.Grouping = append(twinCL.Grouping, uint8(0x41+k))
+					}
+					twinCC.Grouping = append(twinCC.Grouping, 0x41)
+					twinCL.SetGroupingFlag(true)
+					twinCC.SetGroupingFlag(true)
+					_, _ = twinCL.Data(), twinCC.Data()
 				}
 				e["g1"] = c12GettersO(e, x)
 				data := x.Data()
